@@ -33,12 +33,17 @@ def gen_case(rng):
                          integrate_path=rng.random() < 0.25, integrate_t=rng.random() < 0.25, smear=rng.random() < 0.3),
              repeat=rng.choice([1, 1, 2, 5]), t_slew=rng.choice([0.0, 10.0, 123.5]))
     c["t_overwrite"] = rng.random() < 0.35
+    if n >= 2 and rng.random() < 0.2:
+        # the cadence's reference is its FIRST frame, whatever the chronological order: frames listed out of time order
+        rng.shuffle(frames)
+        c["t_overwrite"] = False
+        c["unordered"] = True
     if rng.random() < 0.3:
         c["ts_shift"] = rng.choice([0.5, 0.25, 3.0])       # frames carrying their own time axis (sample mid-points, an offset of a few samples)
     r = rng.random()
     if r < 0.25 and n >= 2:
         a = rng.randint(0, n - 1); b = rng.randint(a + 1, n)
-        c["slice"] = [a, b] if rng.random() < 0.5 else [a, n, 2]
+        c["slice"] = rng.choice([[a, b], [a, n, 2], [n - 1, None, -1]])       # the last one: the cadence reversed
     elif r < 0.35 and n >= 2:
         c["index"] = sorted(rng.sample(range(n), rng.randint(1, n)))
     elif r < 0.5:
@@ -49,7 +54,7 @@ def gen_case(rng):
 def run(ctx):
     rng = ctx.rng
     quick = ctx.tier == "quick"
-    ctx.rule = ("cadences of 1-6 frames of 1-4 rows with gaps, integer and realistic unix start times, both orientations, whole cadence / slice / "
+    ctx.rule = ("cadences of 1-6 frames of 1-4 rows with gaps, integer and realistic unix start times, in and out of chronological order, both orientations, whole cadence / slice (also reversed) / "
                 "label subset; constant or sine time profile, drifting box signal, integrate_path / integrate_t / smearing; 1, 2 or 5 repeated "
                 "injections; a callback raising on the k-th frame for every k; overwrite_times, slew_times, consolidate; "
                 "non-trivial = at least two frames; distinct = distinct case")
@@ -71,7 +76,7 @@ def run(ctx):
         ctx.count(c, nontrivial=len(c["frames"]) >= 2)
         ctx.tally("frames", len(c["frames"])); ctx.tally("times", "unix" if c["realistic"] else "integer"); ctx.tally("repeat", c["repeat"])
         ctx.tally("subset", "slice" if c.get("slice") else ("index" if c.get("index") else ("label" if c.get("label") else "all")))
-        ctx.tally("t_overwrite", bool(c.get("t_overwrite")))
+        ctx.tally("t_overwrite", bool(c.get("t_overwrite"))); ctx.tally("chronological", not (c.get("unordered") or (c.get("slice") or [0])[-1] == -1))
         for key, msg in r["fails"]:
             ctx.impl_violation(key, msg, c)
         if mv is not None:
